@@ -7,7 +7,7 @@ from vlib import core, gen
 PROP = "C17"
 META = {
     "technique": "Coq proof over a model of the per-pool rebuild watchers of session_manager.go (program counters, pool OBJECT identity, epoch comparison, dial that may fail, hot-restart swap/park/time-out on the same heap, SessionManager.Close): step-level theorems for every state and invariants over ALL event histories; tie: histories observed on the real SessionManager (hot-restart handler wrapped through sessionManagerHandlers, snapshots under the manager's lock, pool objects identified by pointer) must be accepted by the model run with a deterministic schedule of the unobservable watcher steps, plus an independent oracle",
-    "level_text": "PARTIAL. Proved: from any state in which pool id's watcher waits on the lost session of sm.pools[id], no hot restart in progress, manager open, the watcher's steps wake; timer; (failed dial; timer)^k; successful dial (any k) end with GetStream on that pool succeeding and exactly one session created (C17_heals); hotRestartState pauses the watcher; a watcher whose pool object was swapped out creates nothing (C17_not_twice_guard, identity comparison `sm.pools[id] != pool`); over ALL histories, equal epochs included, no rebuilt session is ever stored into a pool object that is no longer sm.pools[id] (C17_not_twice_full; holds since the repair of the guard — the HotRestart(0) history that refuted it before stays as a regression scenario); GetStream never blocks and fails exactly on a closed session (C17_fail_fast); after cancel, over all histories, watchers create at most as many sessions as were already past their timer, and none once all have returned (C17_close_stops, C17_close_final); SessionManager.Close is modelled statement by statement in the order of the code (cancelFunc; wg.Wait; one critical section closing pools and parked pools) and the hot-restart handler ignores events once the context is cancelled: for ALL histories, whenever Close has returned every watcher has returned, every pool's session is closed and nothing is parked (C17_close_returned_full — the proof depends on wg.Wait preceding the closing section; C17_example_close_order shows the swapped order returning with a live session), and that state is final: nothing is created by a watcher or by the handler over any further history (C17_close_quiesced_forever, C17_hr_event_after_cancel); after cancel and outside hotRestartState every watcher has a path of its own steps to its return (C17_close_exit_path), whereas at its loop head in hotRestartState it cannot move (C17_close_waits_for_hot_restart: Close waits for the end of the hot restart, measured ~2 s, bounded by C16's checker). Observed only: the rebuild timer fires after rebuildInterval, dials reach a listening server, the client end notices a dead peer, a cancelled context is seen before a fresh timer, goroutine termination (census).",
+    "level_text": "PARTIAL. Proved: from any state in which pool id's watcher waits on the lost session of sm.pools[id], no hot restart in progress, manager open, the watcher's steps wake; timer; (failed dial; timer)^k; successful dial (any k) end with GetStream on that pool succeeding and exactly one session created (C17_heals); hotRestartState pauses the watcher; the watcher is modelled by its real steps (detect loss / close pool; wait; one critical section: identity check `sm.pools[id] != pool` then dial; then, lock released, Store) with the order read from the source on every run (go/ast: position of the comparison relative to the timer receive, Lock region shared with the dial, Store after Unlock; order of Close's statements): a watcher whose pool object was swapped out does not dial (C17_not_twice_guard); over ALL histories in which no hot-restart event for a pool is handled between its watcher's dial section and the adjacent Store, no rebuilt session is ever stored into a pool object that is no longer sm.pools[id] (C17_not_twice_partial_store_not_interleaved) — the proof depends on the check being made after the wait and atomically with the dial (C17_example_check_after_wait: checking before the wait violates it); the unrestricted statement is REFUTED by the interleaving handler-between-Unlock-and-Store (C17_not_twice_refuted, C17_example_store_race; a two-statement window of the real code, not forced on the real code); GetStream never blocks and fails exactly on a closed session (C17_fail_fast); after cancel, over all histories, watchers create at most as many sessions as were already past their timer, and none once all have returned (C17_close_stops, C17_close_final); SessionManager.Close is modelled statement by statement in the order of the code (cancelFunc; wg.Wait; one critical section closing pools and parked pools) and the hot-restart handler ignores events once the context is cancelled: for ALL histories, whenever Close has returned every watcher has returned, every pool's session is closed and nothing is parked (C17_close_returned_full — the proof depends on wg.Wait preceding the closing section; C17_example_close_order shows the swapped order returning with a live session), and that state is final: nothing is created by a watcher or by the handler over any further history (C17_close_quiesced_forever, C17_hr_event_after_cancel); after cancel and outside hotRestartState every watcher has a path of its own steps to its return (C17_close_exit_path), whereas at its loop head in hotRestartState it cannot move (C17_close_waits_for_hot_restart: Close waits for the end of the hot restart, measured ~2 s, bounded by C16's checker). Observed only: the rebuild timer fires after rebuildInterval, dials reach a listening server, the client end notices a dead peer, a cancelled context is seen before a fresh timer, goroutine termination (census).",
     "level_note": "Trusted: coqc kernel; the hand-written model (tied by accepted histories of 7 scenario kinds per round); the acceptor's deterministic schedule of unobservable watcher steps (immediate reactions right after each observed event; timer + dial exactly when a rebuilt session is observed); Go runtime timers/scheduling. C17_heals is stated without interference on that pool between loss and rebuild (interference by hot restart is covered by the not_twice / paused theorems). The watcher blocks in select on the session it loaded: a NEW-epoch session lost while the parked old session is still open is only noticed when the old one closes (model and code agree; not part of the property's statement).",
 }
 
@@ -55,7 +55,7 @@ def case_to_coq(c):
     for e in c["hist"] or []:
         o = e.get("obs")
         items.append("(%s, %s)" % (ev_to_coq(e), ("Some " + obs_to_coq(o)) if o else "None"))
-    return "{| rc_n := %s; rc_hist := %s |}" % (n(c["n"]), core.coq_list(items))
+    return "{| rc_n := %s; rc_early := %s; rc_hist := %s |}" % (n(c["n"]), b(c.get("_early", False)), core.coq_list(items))
 
 
 CODES = {1: "manager state", 2: "manager epoch", 3: "pool object behind a pool id", 4: "pool objects (epoch / liveness of their session)",
@@ -102,9 +102,32 @@ def run_harness(rounds, seed, tag):
                                  timeout=900)
     if rc != 0 or not os.path.exists(outp):
         return None, "harness failed (rc=%d): %s" % (rc, out[-2500:]), secs
-    cases = [json.loads(l) for l in open(outp) if l.strip()]
+    recs = [json.loads(l) for l in open(outp) if l.strip()]
     os.unlink(outp)
+    shape = None
+    cases = []
+    for r in recs:
+        if r.get("id") == "source-shape":
+            shape = r.get("shape") or {}
+        else:
+            cases.append(r)
+    SHAPE["last"] = shape
+    early = bool(shape) and not (shape.get("check_after_timer") and shape.get("check_in_lock_with_dial"))
+    for c in cases:
+        c["_early"] = early
     return cases, None, secs
+
+
+SHAPE = {"last": None}
+
+# what Model/Rebuild.v assumes about the order of statements in session_manager.go
+SHAPE_EXPECTED = {
+    "check_after_timer": "background(): the comparison sm.pools[id] != pool stands after the receive from rebuildTimer.C",
+    "check_in_lock_with_dial": "background(): that comparison and the newClientSession call stand in one sm.Lock() region",
+    "store_after_unlock": "background(): pool.session.Store(session) stands after the sm.Unlock() that follows the dial (modelled as a separate step)",
+    "close_wait_before_closing": "SessionManager.Close: sm.wg.Wait() precedes the closing of the pools",
+    "close_under_lock": "SessionManager.Close: pools and parked pools are closed between sm.Lock() and sm.Unlock()",
+}
 
 
 def brief(c, around=None):
@@ -137,6 +160,14 @@ def check(run):
     if err:
         run.add_corr_break("T: " + err)
         cases = []
+    shape = SHAPE["last"]
+    if not err:
+        if not shape or not shape.get("found"):
+            run.add_corr_break("G: the shape of SessionManager.background()/Close could not be read from the source: %s" % ((shape or {}).get("err"),))
+        else:
+            for k, what in SHAPE_EXPECTED.items():
+                if not shape.get(k):
+                    run.add_corr_break("G: the source no longer has the shape the model assumes — " + what, {"shape": shape})
     for f in oracle_failures(cases):
         run.add_oracle_failure(f["signature"], f["what"], f["case"])
     model_cases = [c for c in cases if not c.get("skip_model") and not c.get("ambiguous") and c.get("hist")]
@@ -186,6 +217,9 @@ def check(run):
         "close_during_hot_restart": [{k: v for k, v in (c.get("stats") or {}).items() if k in ("close_ms", "close_called_ms_after_hot_restart", "in_hot_restart_at_close")} for c in cases if "close-during-hot-restart" in (c.get("feat") or [])],
         "goroutine_census": [{k: v for k, v in (c.get("stats") or {}).items() if k.startswith("goroutines")} for c in cases if "goroutine-census" in (c.get("feat") or [])],
         "harness_wall_s": round(hsecs, 1),
+        "source_shape": shape,
+        "swap_during_wait": {c["id"]: {k: v for k, v in (c.get("stats") or {}).items() if k.startswith("accepts") or k == "live_server_sessions"}
+                             for c in cases if "swap-during-rebuild-wait" in (c.get("feat") or [])},
     })
     run.assumptions += [
         "timers: the rebuild happens rebuildInterval after the loss and a cancelled context wins over a fresh timer — observed with generous bounds, not proved",
